@@ -1241,3 +1241,173 @@ def rule_P5(ctx, cname, reader, obj, rid='P5'):
                    attr, sorted(creatable), sorted(readable),
                    '' if not missing else ' -- %s cannot be read back' % sorted(missing)))
     return n
+
+
+# ---------------------------------------------------------------------------
+# P7 optional members: the reader decides presence exactly as the constructor / writer does
+# ---------------------------------------------------------------------------
+
+def _optional_assignments(func, obj):
+    """attr -> (guard expr, polarity under which the attribute is assigned a non-None
+    value) for attributes that are assigned None on another branch."""
+    par = _parents(func.node)
+    none_attrs, some = set(), {}
+    for n in walk_no_nested(func.node):
+        if isinstance(n, ast.Assign) and len(n.targets) == 1 and \
+                isinstance(n.targets[0], ast.Attribute) and \
+                isinstance(n.targets[0].value, ast.Name) and n.targets[0].value.id == obj:
+            a = n.targets[0].attr
+            if isinstance(n.value, ast.Constant) and n.value.value is None:
+                none_attrs.add(a)
+            else:
+                g = _guards_of(func, n, par)
+                if g:
+                    some.setdefault(a, []).append(g[-1])
+    return {a: some[a] for a in none_attrs if a in some}
+
+
+def _norm_guard(test, pol, obj):
+    """Normalised text of a presence predicate with the object variable abstracted and
+    the polarity folded in."""
+    t = test
+    while isinstance(t, ast.UnaryOp) and isinstance(t.op, ast.Not):
+        pol = not pol
+        t = t.operand
+    txt = unparse(t)
+    import re
+    txt = re.sub(r'\b%s\.' % re.escape(obj), 'OBJ.', txt)
+    return ('' if pol else 'not ') + txt
+
+
+def rule_P7(ctx, cls, w, r, rid='P7'):
+    ctx.rule(rid, 'optional members: an attribute that may be None is restored under the same '
+             'presence predicate the constructor uses, or under a file probe / flag that the '
+             'writer emits exactly when the attribute is present')
+    comp = cls.methods.get('compute')
+    if comp is None:
+        return 0
+    cobj, robj = _ctor_obj(comp), _ctor_obj(r)
+    copt = _optional_assignments(comp, cobj)
+    ropt = _optional_assignments(r, robj)
+    W = writer_table(w)
+    n = 0
+    for attr in sorted(set(copt) & set(ropt)):
+        for test, pol in ropt[attr][:1]:
+            n += 1
+            rtxt = _norm_guard(test, pol, robj)
+            ctxts = {_norm_guard(t, p, cobj) for t, p in copt[attr]}
+            # (a) same predicate over restored state
+            if rtxt in ctxts:
+                ctx.ob(rid, '%s.read:presence(%s)' % (cls.name, attr), True, r.where(test),
+                       'restored exactly when `%s`, as in compute()' % rtxt)
+                continue
+            # (b) a probe of the key the writer emits under `self.attr is not None`
+            probes = guard_probes(Entry('R', 'x', '', None, test, [(test, pol)], r))
+            ok = False
+            why = 'read() restores %r when `%s` but compute() creates it when %s' % (
+                attr, rtxt, sorted(ctxts))
+            for k in probes:
+                ws = [e for e in W if e.key == k]
+                for e in ws:
+                    if e.kind == 'group' and e.attr == attr and e.guards and \
+                            _norm_guard(e.guards[-1][0], e.guards[-1][1], 'self') == \
+                            'OBJ.%s is not None' % attr and pol is True and \
+                            isinstance(test, ast.Compare) and isinstance(test.ops[0], ast.In):
+                        ok = True
+                        why = 'restored when key %r is present; the writer emits it exactly ' \
+                              'when the attribute is not None' % k
+                    if e.kind == 'attr' and e.src is not None and \
+                            unparse(e.src) == 'self.%s is not None' % attr and pol is True and \
+                            not isinstance(test, ast.UnaryOp):
+                        ok = True
+                        why = 'restored when flag %r is true; the writer stores `%s`' % (
+                            k, unparse(e.src))
+            ctx.ob(rid, '%s.read:presence(%s)' % (cls.name, attr), ok, r.where(test), why)
+    return n
+
+
+# ---------------------------------------------------------------------------
+# P0 state completeness: every attribute that changes after construction is persisted
+# ---------------------------------------------------------------------------
+
+P0_EXCEPTIONS = {
+    ('Sampler', 'blobs_dtype'): 're-derived from the dtype of the stored blob datasets on resume',
+    ('Union', 'rng'): 'the shared generator is persisted once, by the sampler',
+    ('NautilusBound', 'rng'): 'the shared generator is persisted once, by the sampler',
+    ('UnitCube', 'rng'): 'the shared generator is persisted once, by the sampler',
+    ('Ellipsoid', 'rng'): 'the shared generator is persisted once, by the sampler',
+    ('Union', 'block'): 'read by split() only; bounds are split only while being constructed, '
+                        'before they are ever written',
+}
+
+
+def rule_P0(ctx, cname, roots, writer, rid='P0'):
+    ctx.rule(rid, 'state completeness: every attribute that the stepping code can modify after '
+             'construction is written by the full checkpoint writer (or is re-derivable, with '
+             'the reason recorded)')
+    prog = ctx.program
+    W = writer_table(writer)
+    persisted = set()
+    for e in W:
+        a = e.attr or getattr(e, 'derived_from', None)
+        if a:
+            persisted.add(a)
+    mut = mutated_attrs(prog, roots, cname)
+    infl = _influential_reads(prog, roots, cname)
+    n = 0
+    for a in sorted(mut):
+        if a not in infl and a not in persisted:
+            # written but never consulted (e.g. a diagnostic counter): cannot influence a
+            # resumed run, so its absence from the file does not break the property
+            ctx.note('attribute %s.%s is modified but never read by the stepping code: not '
+                     'required in the checkpoint' % (cname, a))
+            continue
+        n += 1
+        exc = P0_EXCEPTIONS.get((cname, a))
+        ok = a in persisted or exc is not None
+        ctx.ob(rid, '%s:persisted(%s)' % (cname, a), ok, writer.where(),
+               'mutable attribute %r is %s' % (a, 'written by %s' % writer.qualname if a in
+                                               persisted else 'not written: ' + (exc or '')) if ok
+               else 'attribute %r is modified by %s but never written to the checkpoint: a '
+               'resumed run continues from a different state' % (
+                   a, sorted({v for _, v in mut[a]})[:2]))
+    return n
+
+
+def _influential_reads(prog, roots, cname):
+    """Attributes of `cname` loaded by the code reachable from `roots`, not counting loads
+    inside a statement that only updates that same attribute."""
+    res = resolver(prog)
+    seen, work, out = set(), list(roots), set()
+    while work:
+        f = work.pop()
+        if f.qualname in seen:
+            continue
+        seen.add(f.qualname)
+        for _, callees, _ in res.direct(f).calls:
+            work.extend(callees)
+        if f.cls is None:
+            continue
+        recv = f.self_name
+        for st in walk_no_nested(f.node):
+            if not isinstance(st, ast.stmt):
+                continue
+            own = set()
+            if isinstance(st, (ast.Assign, ast.AugAssign)):
+                for t in (st.targets if isinstance(st, ast.Assign) else [st.target]):
+                    ra = root_attr(t, recv) if recv else None
+                    if ra:
+                        own.add(ra[0])
+            if isinstance(st, (ast.If, ast.While, ast.For, ast.With, ast.Try,
+                               ast.FunctionDef)):
+                subs = [st.test] if isinstance(st, (ast.If, ast.While)) else (
+                    [st.iter] if isinstance(st, ast.For) else [])
+            else:
+                subs = [st]
+            for sub0 in subs:
+                for sub in ast.walk(sub0):
+                    if isinstance(sub, ast.Attribute) and isinstance(sub.ctx, ast.Load):
+                        t = res.type_of(f, sub.value)
+                        if t and cname in t and sub.attr not in own:
+                            out.add(sub.attr)
+    return out
